@@ -1,4 +1,4 @@
 From Coq Require Import ExtrOcamlBasic ExtrOcamlString.
-From WB Require Import Core.Source.
+From WB Require Import Core.Source Core.SourceSpec.
 Extraction Language OCaml.
-Extraction "../build/extracted/source_model.ml" observe.
+Extraction "../build/extracted/source_model.ml" observe classify classify_block.
